@@ -35,8 +35,9 @@ VARIABLES l,        \* index of the next event
           dead,     \* record objects abandoned with an earlier ballot box
           acc,      \* concurrent part: key -> ballots whose Vote returned true
           calls,    \* concurrent part: call id -> its Call event
-          setlast   \* concurrent part: some thread called SetLastPoint
-tvars == <<vars, l, handed, dead, acc, calls, setlast>>
+          setlast,  \* concurrent part: some thread called SetLastPoint
+          sufk      \* the box knows the suffrage of the heights <= sufk only (a lagging node)
+tvars == <<vars, l, handed, dead, acc, calls, setlast, sufk>>
 Ev == Trace[l]
 
 SetOf(s) == {s[i] : i \in 1..Len(s)}
@@ -81,16 +82,29 @@ RecountOK(v) ==
   /\ vp.res = t.res
   /\ vp.res = "MAJORITY" => vp.mk \in t.maj
 (* m: the accepted ballots per key at the time of the count; hd: handed names *)
+(* A forwarded voteproof (taken out of a ballot) is data chosen by the ballot's sender: ID, stage point,   *)
+(* claimed result and threshold prove nothing - also when they repeat those of a voteproof the box has    *)
+(* emitted before. It is judged by its content alone: the very voteproof some handed ballot embedded       *)
+(* (v.fwd names it by content; "?..": the ID of an embedded voteproof with another content) and a sound    *)
+(* voteproof of the suffrage (both validators, signers, recount).                                          *)
+FwdValid(v, flag) ==
+  /\ SfsOwnPoint(v, flag) /\ SfsDistinct(v) /\ SfsInSuffrage(v)
+  /\ v.v1 = "" /\ v.v2 = ""
+  /\ RecountOK(v)
+  /\ v.res \in {"MAJORITY", "DRAW"}
+  /\ v.res = "MAJORITY" => v.sc = flag
 CheckVP(v, m, hd) ==
   LET info == <<v.h, v.r, v.s>>
       (* the flag of the record a counted voteproof comes from is that of the sign facts it contains *)
       flag == IF Len(v.sfs) > 0 THEN v.sfs[1].sc ELSE FALSE
       k == StoreKey([h |-> v.h, r |-> v.r, s |-> v.s], flag)
   IN
-  /\ IF v.fwd # ""
-     THEN Expect("C04-forwarded-unknown", v.fwd \in hd, info)
-     ELSE /\ Expect("C04-point-not-voted", k \in DOMAIN m, info)
-          /\ Expect("C04-sfs-not-accepted", k \in DOMAIN m => VotesOf(v.sfs) \subseteq m[k], info)
+  IF v.fwd # ""
+  THEN /\ Expect("C04-forwarded-unknown", v.fwd \in hd, info)
+       /\ Expect("C04-invalid-forwarded", FwdValid(v, flag), info)
+  ELSE
+  /\ Expect("C04-point-not-voted", k \in DOMAIN m, info)
+  /\ Expect("C04-sfs-not-accepted", k \in DOMAIN m => VotesOf(v.sfs) \subseteq m[k], info)
   /\ Expect("C04-sfs-foreign-point", SfsOwnPoint(v, flag), info)
   /\ Expect("C04-majority-flag", v.res = "MAJORITY" => v.sc = flag, info)
   /\ Expect("C04-sfs-duplicate-node", SfsDistinct(v), info)
@@ -181,7 +195,7 @@ Settle(O, S, hd, cleans) ==
   /\ gen' = S.gen
   /\ mat' = [k \in OKeys |-> IF k \in DOMAIN emat THEN emat[k] ELSE OObj[ORecs[k]].votes]
 
-Unch == UNCHANGED <<Node, Local, T10, chan, cleaning, nvotes, nset, nticks, step, dead, acc, calls, setlast>>
+Unch == UNCHANGED <<Node, Local, T10, chan, cleaning, nvotes, nset, nticks, step, dead, acc, calls, setlast, sufk>>
 Pre == [recs |-> recs, robj |-> robj, pool |-> pool, gen |-> gen, mat |-> mat]
 
 (* the effect of Vote(b) itself on the records, the result taken from the log  *)
@@ -214,7 +228,9 @@ TVote ==
         /\ Expect("X-vote-error", Ev.err = "" /\ Ev.panic = "", <<b.node, b.h, b.r, b.s>>)
         /\ Expect("C05-pool-identity", needNew => (id < 0 \/ id \notin DOMAIN gen \/ Get(pool, id) > 0), id)
         /\ handed' = hd
-        /\ Settle(O, VoteState(O, Pre, b, Ev.voted, needNew), hd, Ev.voted /\ Len(Ev.vps) > 0)
+        (* a lagging node (suffrage of the ballot's height not known yet): the ballot is kept, only the voteproof *)
+        (* it embeds can be forwarded - without a count, a move of the last point and a clean cycle              *)
+        /\ Settle(O, VoteState(O, Pre, b, Ev.voted, needNew), hd, Ev.voted /\ Len(Ev.vps) > 0 /\ Ev.h - 1 <= sufk)
   /\ Unch
 
 TCount ==
@@ -261,7 +277,7 @@ TReset ==
   /\ Consume /\ Ev.a = "Reset"
   /\ Node' = SetOf(Ev.nodes) /\ Local' = Ev.local /\ T10' = Ev.t10
   /\ last' = ZeroLP /\ recs' = <<>> /\ robj' = <<>> /\ removed' = {} /\ mat' = <<>>
-  /\ handed' = {} /\ acc' = <<>> /\ calls' = <<>> /\ setlast' = FALSE
+  /\ handed' = {} /\ acc' = <<>> /\ calls' = <<>> /\ setlast' = FALSE /\ sufk' = Ev.sufupto
   (* the objects of the old box are abandoned (the harness keeps them alive, so they never   *)
   (* come back); only objects in the pool can be seen again                                   *)
   /\ LET keep == IF Ev.newproc THEN {}     \* recording of another process: its own pool, its own object numbering
@@ -278,7 +294,7 @@ TCall ==
   /\ calls' = (Ev.c :> Ev) @@ calls
   /\ handed' = IF Ev.op = "Vote" /\ Ev.evp.name # "" THEN handed \cup {Ev.evp.name} ELSE handed
   /\ setlast' = (setlast \/ Ev.op = "SetLast")
-  /\ UNCHANGED <<vars, dead, acc>>
+  /\ UNCHANGED <<vars, dead, acc, sufk>>
 CallLasts == {LPOf(calls[c]) : c \in {d \in DOMAIN calls : calls[d].op = "SetLast"}}
 TRet ==
   /\ Consume /\ Ev.a = "Ret"
@@ -287,7 +303,7 @@ TRet ==
      THEN LET b == BallotOf(calls[Ev.c])  k == StoreKey(SPOf(b), b.sc) IN
           acc' = [j \in DOMAIN acc \cup {k} |-> (IF j \in DOMAIN acc THEN acc[j] ELSE {}) \cup (IF j = k THEN {VoteOf(b)} ELSE {})]
      ELSE UNCHANGED acc
-  /\ UNCHANGED <<vars, handed, dead, calls, setlast>>
+  /\ UNCHANGED <<vars, handed, dead, calls, setlast, sufk>>
 (* everything has come to rest. Facts that hold for every schedule: a live      *)
 (* record holds only ballots accepted for its own key; a record of a passed     *)
 (* point that is still reachable was created after the last clean cycle and is  *)
@@ -329,11 +345,11 @@ TQuiet ==
                      Get(puts2, i) + IF i \in OIds \cup ORemoved \/ i \in dead THEN 1 ELSE 0]
         /\ pool' = [i \in DOMAIN puts2 |-> IF i \in OIds \cup ORemoved \/ i \in dead THEN 0 ELSE 1]
         /\ mat' = [k \in OKeys |-> OObj[ORecs[k]].votes]
-  /\ UNCHANGED <<Node, Local, T10, chan, cleaning, nvotes, nset, nticks, step, handed, dead, acc, calls, setlast>>
+  /\ UNCHANGED <<Node, Local, T10, chan, cleaning, nvotes, nset, nticks, step, handed, dead, acc, calls, setlast, sufk>>
 
 TraceInit ==
   /\ Init
-  /\ l = 1 /\ handed = {} /\ dead = {} /\ acc = <<>> /\ calls = <<>> /\ setlast = FALSE
+  /\ l = 1 /\ handed = {} /\ dead = {} /\ acc = <<>> /\ calls = <<>> /\ setlast = FALSE /\ sufk = 1048576
 TraceNext == TReset \/ TVote \/ TCount \/ TSetLast \/ TTick \/ TVoted \/ TMissing \/ TCall \/ TRet \/ TQuiet
 TraceSpec == TraceInit /\ [][TraceNext]_tvars
 
